@@ -5,6 +5,11 @@ impl<'a> EventIterator<'a> {
     /// the registration token the iterator filters for
     pub closed spec fn reg(&self) -> RegistrationToken { self.registration_token }
     /// the events it still ranges over (before filtering)
+    /// the same as references into the batch (what slice::Iter hands out)
+    #[verifier::prophetic]
+    pub closed spec fn rest_refs(&self) -> Seq<&'a crate::sys::PollEvent> {
+        vstd::std_specs::iter::IteratorSpec::remaining(&self.inner)
+    }
     #[verifier::prophetic]
     pub closed spec fn rest(&self) -> Seq<crate::sys::PollEvent> {
         vstd::std_specs::iter::IteratorSpec::remaining(&self.inner).map_values(|e: &crate::sys::PollEvent| *e)
